@@ -43,6 +43,9 @@ type SeqCtx struct {
 	depthDone int
 	caseNo    int64
 	known     map[string]*Violation
+	// cases that violated during the search but not on their own (see Fail)
+	unreproduced      int
+	firstUnreproduced string
 }
 
 // Mine reports whether the i-th top-level case belongs to this shard.
@@ -103,6 +106,23 @@ func (c *SeqCtx) Fail(clause, detail string, ops []string) {
 				Params: map[string]string{"engine": "seq", "job": c.job.Name}}
 		}
 		return
+	}
+	// a case that violates only in the middle of the search and not when it is executed on its own depends on
+	// something an earlier case left behind in the process (a package-level pool or cache). It is set aside and the
+	// search goes on, so that a case that violates on its own - if there is one - is still found and reported.
+	if c.job.Replay != nil && c.unreproduced < 50 {
+		again := false
+		for i := 0; i < 3 && !again; i++ {
+			cl, _ := c.job.Replay(ops)
+			again = cl != ""
+		}
+		if !again {
+			c.unreproduced++
+			if c.firstUnreproduced == "" {
+				c.firstUnreproduced = fmt.Sprintf("clause %q, case %v", clause, ops)
+			}
+			return
+		}
 	}
 	c.viol = &Violation{Property: c.job.Property, Scenario: c.job.Name, Clause: clause, Detail: detail, Ops: ops,
 		Params: map[string]string{"engine": "seq", "job": c.job.Name}}
@@ -175,6 +195,9 @@ func runSeqJob(job *SeqJob, shard, nshards int, budget time.Duration) *seqResult
 	}
 	sort.Strings(ctx.alphabet)
 	res.Stats = &seqStatsOut{Stats: ctx.st, DistinctNontrivial: nt, DepthCompleted: ctx.depthDone, Alphabet: ctx.alphabet}
+	if ctx.viol == nil && ctx.unreproduced > 0 {
+		res.Infra = fmt.Sprintf("NONDETERMINISM: %d case(s) violated during the search but not when executed on their own (first: %s): the outcome depends on state left in the process by earlier cases", ctx.unreproduced, ctx.firstUnreproduced)
+	}
 	if ctx.viol != nil && job.Replay != nil {
 		// confirmation: the recorded case is re-executed without the search. Five identical outcomes are the
 		// normal case. Plain (uninstrumented) builds leave Go's map iteration order to the runtime, so a case may
